@@ -74,6 +74,19 @@ func c08Doc(c *explore.Ctx, s *explore.SubStats, d kitDoc) {
 	}
 	s.Validated++
 	got := implRules(errs)
+	// the exported rule list with the four without-suggestions variants in place of their
+	// standard rules accepts exactly the same documents (suggestions are text only)
+	{
+		d2, _ := parser.ParseQuery(&ast.Source{Name: "q.graphql", Input: d.Doc})
+		var verrs gqlerror.List
+		rv := guarded(c02DocBudget, 5000, func() { verrs = validator.Validate(schema, d2, c08VariantList()...) })
+		s.Transitions++
+		if rv.Panicked {
+			bad("panic variants site="+rv.Site+" msg="+normMsg(rv.PanicVal), "Validate with the without-suggestions variants panicked: "+rv.PanicVal, "", "")
+		} else if (len(verrs) == 0) != (len(errs) == 0) {
+			bad("valid/variants-differ rule="+strings.Join(implRules(append(append(gqlerror.List{}, errs...), verrs...)), ","), "the rule list with the without-suggestions variants accepts what the standard rules reject, or the other way round", errSig(errs), errSig(verrs))
+		}
+	}
 	switch {
 	case len(errs) == 0 && !want.Valid():
 		rules := want.Rules()
@@ -112,4 +125,23 @@ func runC08(c *explore.Ctx) {
 		forEachBlindDoc(c, s, n, func(d kitDoc) { c08Doc(c, s, d) })
 		s.WallS = time.Since(t0).Seconds()
 	}
+}
+
+var c08Variants []validator.Rule
+
+// c08VariantList: the standard rules in registration order with every rule that has a
+// without-suggestions variant replaced by it.
+func c08VariantList() []validator.Rule {
+	if c08Variants == nil {
+		for _, r := range c18Standard {
+			rep := r
+			for _, v := range c18Variants {
+				if v.standard.Name == r.Name {
+					rep = v.variant
+				}
+			}
+			c08Variants = append(c08Variants, rep)
+		}
+	}
+	return c08Variants
 }
